@@ -106,18 +106,19 @@ func compare(ref, got final) (string, string) {
 		return sig, "stored key shares (key-manager accounts, by share public key) differ:" + diffStrings(ref.km.Accounts, got.km.Accounts)
 	}
 	if strings.Join(ref.km.SP, ",") != strings.Join(got.km.SP, ",") {
-		// a record too few means lost protection; a record too many is a leftover
+		// A record too few for a stored share means an add was half-applied (judged). A record too many is a
+		// leftover for a share that is no longer stored: the statement speaks of registry state, nonces and stored
+		// key shares, not of slashing-protection records, so leftovers are counted as an observation, not judged.
 		have := map[string]bool{}
 		for _, r := range got.km.SP {
 			have[r] = true
 		}
-		sig := "km-extra-slashing-protection"
 		for _, r := range ref.km.SP {
 			if !have[r] {
-				sig = "km-missing-slashing-protection"
+				return "km-missing-slashing-protection", "slashing-protection records (highest attestation / proposal per share key) differ:" + diffStrings(ref.km.SP, got.km.SP)
 			}
 		}
-		return sig, "slashing-protection records (highest attestation / proposal per share key) differ:" + diffStrings(ref.km.SP, got.km.SP)
+		prog.Count("TestPropCrashAtomicity", "observation_leftover_slashing_protection_records", 1)
 	}
 	return "", ""
 }
